@@ -156,3 +156,130 @@ fn c17_posix_optional_sign() {
         Err(_) => assert!(signed && pos + 1 == len),
     }
 }
+
+/// digit value helpers that cannot themselves fail (used on paths where the parser already vouched for the shape)
+fn dv(b: &[u8], at: usize) -> i32 { if at < b.len() { b[at].wrapping_sub(b'0') as i32 } else { 0 } }
+fn dec2(b: &[u8], at: usize) -> i32 { dv(b, at) * 10 + dv(b, at + 1) }
+fn deck(b: &[u8], at: usize, k: usize) -> i32 {
+    if k == 1 { dv(b, at) } else if k == 2 { dec2(b, at) } else { dec2(b, at) * 10 + dv(b, at + 2) }
+}
+/// reference decoder for `[sign]h[h[h]][:mm[:ss]]`: (signed seconds, end position); only meaningful when the parser accepted
+fn ref_hms(tz: &[u8], pos: usize, signed: bool, hdig: usize) -> (i32, i32, usize) {
+    let len = tz.len();
+    let mut q = pos;
+    let mut sign = 1;
+    if signed && q < len && (tz[q] == b'+' || tz[q] == b'-') { if tz[q] == b'-' { sign = -1; } q += 1; }
+    let k = ndig(tz, q, hdig);
+    let h = deck(tz, q, k); q += k;
+    let (mut m, mut s) = (0, 0);
+    if q < len && tz[q] == b':' {
+        q += 1; m = dec2(tz, q); q += 2;
+        if q < len && tz[q] == b':' { q += 1; s = dec2(tz, q); q += 2; }
+    }
+    (sign, h * 3600 + m * 60 + s, q)
+}
+
+//@harness c17_posix_time
+//@target shared::posix::Parser::parse_posix_time (src/shared/posix.rs)
+//@prop C17 C03
+//@tier quick
+//@timeout 900
+//@doc both dialects (POSIX: hh 0..=24 unsigned; IANA v3+: optional sign, hhh 0..=167), every window of up to 11 bytes (sign + 3 + ":mm" + ":ss" + one lookahead byte) at start position 0 or 1: Ok(t) => t.second == sign*(h*3600+m*60+s) decoded from the text, the position is just after the last digit, and t is inside -604799..=604799 (PosixTime::wf; the `assert!` in the parser is never hit); otherwise Err; no panic, no overflow
+#[kani::proof]
+#[kani::unwind(5)]
+fn c17_posix_time() {
+    let bytes: [u8; 12] = kani::any();
+    let len: usize = kani::any(); kani::assume(len <= 12);
+    let pos: usize = if kani::any() { 1 } else { 0 }; kani::assume(pos <= len);
+    let iana: bool = kani::any();
+    let tz = &bytes[..len];
+    let p = mk(tz, pos, iana);
+    let r = p.parse_posix_time();
+    assert!(p.pos() <= len);
+    if let Ok(t) = r {
+        let (sign, v, q) = ref_hms(tz, pos, iana, if iana { 3 } else { 2 });
+        assert!(t.second == sign * v);
+        assert!(p.pos() == q && q > pos);
+        assert!(wf_time(&t));
+        if !iana { assert!(0 <= t.second && t.second <= 89999); }
+    }
+}
+
+//@harness c17_posix_offset
+//@target shared::posix::Parser::parse_posix_offset (src/shared/posix.rs)
+//@prop C17 C03
+//@tier quick
+//@timeout 900
+//@doc every window of up to 10 bytes (sign + hh + ":mm" + ":ss" + one lookahead byte) at start position 0 or 1: Ok(o) => o.second == -sign*(h*3600+m*60+s) (POSIX offsets count west of Greenwich), the position is just after the last digit, |o| <= 89999 (so PosixOffset::wf and the parser's own `assert!` hold); no panic, no overflow
+#[kani::proof]
+#[kani::unwind(5)]
+fn c17_posix_offset() {
+    let bytes: [u8; 11] = kani::any();
+    let len: usize = kani::any(); kani::assume(len <= 11);
+    let pos: usize = if kani::any() { 1 } else { 0 }; kani::assume(pos <= len);
+    let tz = &bytes[..len];
+    let p = mk(tz, pos, kani::any());
+    let r = p.parse_posix_offset();
+    assert!(p.pos() <= len);
+    if let Ok(o) = r {
+        let (sign, v, q) = ref_hms(tz, pos, true, 2);
+        assert!(o.second == -sign * v);
+        assert!(p.pos() == q && q > pos);
+        assert!(-89999 <= o.second && o.second <= 89999 && wf_offset(&o));
+    }
+}
+
+//@harness c17_posix_date
+//@target shared::posix::Parser::{parse_posix_date,parse_weekday_of_month} (src/shared/posix.rs)
+//@prop C17 C03
+//@tier quick
+//@timeout 900
+//@doc precondition: not at the end of the input (the callers guarantee it; checked in the glue harnesses).  Every window of 1..=8 bytes ("M12.5.6" + one lookahead byte) at start position 0 or 1: Ok(d) => d satisfies PosixDay::wf (Jn 1..=365, n 0..=365, Mm.w.d 1..=12 . 1..=5 . 0..=6) and the position advanced by at least 1 and not past the end; no panic
+#[kani::proof]
+#[kani::unwind(5)]
+fn c17_posix_date() {
+    let bytes: [u8; 9] = kani::any();
+    let len: usize = kani::any(); kani::assume(len <= 9);
+    let pos: usize = if kani::any() { 1 } else { 0 }; kani::assume(pos < len);
+    let tz = &bytes[..len];
+    let p = mk(tz, pos, kani::any());
+    let r = p.parse_posix_date();
+    assert!(p.pos() <= len && p.pos() >= pos);
+    if let Ok(d) = r {
+        assert!(wf_day(&d));
+        assert!(p.pos() > pos);
+        match d {
+            PosixDay::JulianOne(n) => { let k = ndig(tz, pos + 1, 3); assert!(tz[pos] == b'J' && i32::from(n) == deck(tz, pos + 1, k) && p.pos() == pos + 1 + k); }
+            PosixDay::JulianZero(n) => { let k = ndig(tz, pos, 3); assert!(i32::from(n) == deck(tz, pos, k) && p.pos() == pos + k); }
+            PosixDay::WeekdayOfMonth { month, week, weekday } => {
+                let k = ndig(tz, pos + 1, 2);
+                assert!(tz[pos] == b'M' && i32::from(month) == deck(tz, pos + 1, k));
+                assert!(tz[pos + 1 + k] == b'.' && i32::from(week) == dv(tz, pos + 2 + k) && tz[pos + 3 + k] == b'.' && i32::from(weekday) == dv(tz, pos + 4 + k));
+                assert!(p.pos() == pos + 5 + k);
+            }
+        }
+    }
+}
+
+//@harness c17_posix_datetime
+//@target shared::posix::Parser::parse_posix_datetime (src/shared/posix.rs)
+//@prop C17 C03
+//@tier quick
+//@timeout 1200
+//@doc precondition: not at the end of the input.  Both dialects, every window of 1..=19 bytes ("M12.5.6" + "/" + "-167:59:59" + one lookahead byte) from start position 0: Ok(dt) => PosixDayTime::wf (date as in c17_posix_date, time inside -604799..=604799; default 02:00:00 when no "/time" follows), the position advanced by at least 1 and not past the end; no panic
+#[kani::proof]
+#[kani::unwind(5)]
+fn c17_posix_datetime() {
+    let bytes: [u8; 19] = kani::any();
+    let len: usize = kani::any(); kani::assume(1 <= len && len <= 19);
+    let tz = &bytes[..len];
+    let p = mk(tz, 0, kani::any());
+    let r = p.parse_posix_datetime();
+    assert!(p.pos() <= len);
+    if let Ok(dt) = r {
+        assert!(wf_daytime(&dt));
+        assert!(p.pos() >= 1);
+        kani::cover!(dt.time.second == -604799);
+        kani::cover!(dt.time.second == 7200 && p.pos() == 7);
+    }
+}
